@@ -4,6 +4,10 @@ import XsdataModel.Proofs.C10
 
 namespace Props.C10
 open Py Xs.Bind Proofs.C10
+open Proofs.C10.Ex (exEnv exCtx metaRoot metaLeaf metaW ctxW varX leafT unk docKids doc)
+
+/-- the lenient configuration of the examples -/
+def lenient : ParserConfig := { failOnUnknownProperties := false }
 
 /-! ## 1. SkipNode -/
 
@@ -30,6 +34,9 @@ theorem skip_invariant {e : BEnv} {Γ : Ctx} {cfg : ParserConfig} {m : XmlMeta} 
   funext st1
   exact parseKids_head_skipped hc (unknownFor_noCandidate hq e Γ st1 a n w) t c tl post
 
+/- non-vacuity: `z` is unknown for `R`; so is `x`, a name known elsewhere (to `L`) -/
+example : unknownFor metaRoot ['z'] = true ∧ unknownFor metaRoot ['x'] = true := by decide
+
 /-- **skip_invariant_assigned**: the same for a name that *is* known to the class but for
 which, in the state reached after `pre`, every candidate var is passed over (it belongs to
 another wrapper, it is a non-list element that was already assigned, or `build_node`
@@ -45,6 +52,13 @@ theorem skip_invariant_assigned {e : BEnv} {Γ : Ctx} {cfg : ParserConfig} {m : 
   rw [parseKids_append, parseKids_append, hpre]
   simp only [seqKids]
   rw [parseKids_head_skipped hc hq]
+
+/- non-vacuity: after `<a>hi</a>` the single-valued var `a` is assigned; a second `<a>` is
+known (`unknownFor` is false) yet every candidate is passed over -/
+example : parseKids exEnv exCtx lenient metaRoot {} none [leafT ['h','i'] ['a']]
+    = .ok (⟨[(some ['a'], .prim (.str ['h','i']))], 0⟩, ⟨[1], []⟩) := by rfl
+example : unknownFor metaRoot ['a'] = false
+    ∧ noCandidate exEnv exCtx metaRoot ⟨[1], []⟩ ['a'] [] [] none = true := by decide
 
 /-- **skip_invariant_element**: lifted to the whole element bound by an `ElementNode`. -/
 theorem skip_invariant_element {e : BEnv} {Γ : Ctx} {cfg : ParserConfig} {m : XmlMeta} {q : QN}
@@ -91,6 +105,63 @@ theorem skip_invariant_root {e : BEnv} {Γ : Ctx} {cfg : ParserConfig} {clazz : 
       have hm : unknownFor m q = true := by simpa [rootUnknown, rootMeta, hx, hf] using hq
       simp only [skip_invariant_element hc hm]
 
+/- non-vacuity: `<z k="v">t<a>n</a><a>m</a></z>tl` (attribute, text, children carrying a
+known name, tail) between `<a>` and `<l>`: the hypotheses hold and the object is the full one -/
+example : rootUnknown exEnv exCtx ['R'] [] [] ['z'] = true := by decide
+example :
+    parseRoot exEnv exCtx lenient ['R'] (doc ([leafT ['h','i'] ['a']] ++ unk :: docKids.drop 1))
+      = .ok (.obj ['R'] [(['a'], .prim (.str ['h','i'])),
+              (['l'], .obj ['L'] [(['x'], .prim (.int 5)), (['i'], .prim (.int 7))])], 0) := by rfl
+
+/-- **skip_invariant_deep**: the insertion may be arbitrarily deep: below any chain of
+children bound by `ElementNode`s and wrapper elements (`InjectedKids`), as long as the
+name is unknown for the class of the element it lands in.  Names that are known
+*elsewhere* (to the ancestors, to siblings' classes) are irrelevant. -/
+theorem skip_invariant_deep {e : BEnv} {Γ : Ctx} {cfg : ParserConfig} {uq : QN}
+    (hc : cfg.failOnUnknownProperties = false)
+    {m : XmlMeta} {st : ElState} {w : Option QN} {ks ks' : List Tree} {b : Bool}
+    (h : InjectedKids e Γ cfg uq m st w ks ks' b) :
+    parseKids e Γ cfg m st w ks' = parseKids e Γ cfg m st w ks := by
+  induction h with
+  | here hq st w a n t c tl pre post => exact skip_invariant hc hq a n t c tl st w pre post
+  | inChild post ct ctl hpre hw hchild hrec ih =>
+    rw [parseKids_append, parseKids_append, hpre]
+    simp only [seqKids]
+    rw [parseKids.eq_2, parseKids.eq_2, hw]
+    simp only [Bool.false_eq_true, if_false, hchild, bind, Except.bind, parseNode, ih]
+  | inWrapper post ca cn ct ctl hpre hw hrec ih =>
+    rw [parseKids_append, parseKids_append, hpre]
+    simp only [seqKids]
+    rw [parseKids.eq_2, parseKids.eq_2]
+    simp only [Option.isNone_none, Bool.true_and, hw, if_true, ih]
+
+/-- the unknown subtree one level down, inside `<l>` (bound by the `ElementNode` of `L`) -/
+def deepKids : List Tree :=
+  [leafT ['h','i'] ['a'], .node ['l'] [(['i'], ['7'])] [] none [unk, leafT ['5'] ['x']] none]
+
+example : InjectedKids exEnv exCtx lenient ['z'] metaRoot {} none docKids deepKids true :=
+  InjectedKids.inChild (pre := [leafT ['h','i'] ['a']]) [] none none (hpre := rfl) (hw := rfl) (hchild := rfl)
+    (InjectedKids.here (by decide) {} none _ _ _ _ _ [] [leafT ['5'] ['x']])
+
+/-- **skip_invariant_deep_root**: for `NodeParser.parse` -/
+theorem skip_invariant_deep_root {e : BEnv} {Γ : Ctx} {cfg : ParserConfig} {clazz : ClassId} {uq : QN}
+    {pa : List (QN × Str)} {pn : NsMap} {m : XmlMeta} {ks ks' : List Tree} {b : Bool}
+    (hc : cfg.failOnUnknownProperties = false)
+    (hm : rootMeta e Γ clazz pa pn = some m)
+    (h : InjectedKids e Γ cfg uq m {} none ks ks' b) (pq : QN) (pt ptl : Option Str) :
+    parseRoot e Γ cfg clazz (.node pq pa pn pt ks' ptl) = parseRoot e Γ cfg clazz (.node pq pa pn pt ks ptl) := by
+  simp only [parseRoot, bind, Except.bind]
+  cases hx : xsiTypeOf e pa pn with
+  | error err => rfl
+  | ok xt =>
+    simp only
+    cases hf : Γ.fetch clazz none xt with
+    | error err => rfl
+    | ok m' =>
+      have : m' = m := by simpa [rootMeta, hx, hf] using hm
+      subst this
+      simp only [parseNode, skip_invariant_deep hc h]
+
 /-! ## 3. unknown elements with `fail_on_unknown_properties = True` (the default) -/
 
 /-- **strict_unknown_fails**: with the flag on, the same insertion makes the children fail
@@ -111,6 +182,10 @@ theorem strict_unknown_fails {e : BEnv} {Γ : Ctx} {cfg : ParserConfig} {m : Xml
     obtain ⟨o1, st1⟩ := p
     simp only [seqKids]
     rw [parseKids_head_strict hc (unknownFor_noCandidate hq e Γ st1 a n w)]
+
+/- non-vacuity: the default configuration is strict; the prefix `<a>hi</a>` parses -/
+example : ({} : ParserConfig).failOnUnknownProperties = true := rfl
+example : (parseKids exEnv exCtx {} metaRoot {} none [leafT ['h','i'] ['a']]).isOk = true := by rfl
 
 /-- **strict_unknown_fails_element**: the element as a whole fails with `ParserError`
 (nothing of it is bound: not even its attributes are looked at). -/
@@ -145,6 +220,34 @@ theorem strict_unknown_fails_root {e : BEnv} {Γ : Ctx} {cfg : ParserConfig} {cl
       have : m' = m := by simpa [rootMeta, hx, hf] using hm
       subst this
       simp only [strict_unknown_fails_element hc hq (hpre := hpre)]
+
+example : rootMeta exEnv exCtx ['R'] [] [] = some metaRoot := by rfl
+
+/-- **strict_unknown_deep**: with the flag on the same deep insertion fails the children
+with `ParserError`, provided the siblings before the inserted element parse
+(index `true` of `InjectedKids`). -/
+theorem strict_unknown_deep {e : BEnv} {Γ : Ctx} {cfg : ParserConfig} {uq : QN}
+    (hc : cfg.failOnUnknownProperties = true)
+    {m : XmlMeta} {st : ElState} {w : Option QN} {ks ks' : List Tree}
+    (h : InjectedKids e Γ cfg uq m st w ks ks' true) :
+    parseKids e Γ cfg m st w ks' = .error (.parser "Unknown property") := by
+  generalize hb : true = b at h
+  induction h with
+  | here hq st w a n t c tl pre post =>
+    rw [strict_unknown_fails hc hq]
+    cases hp : parseKids e Γ cfg _ st w pre with
+    | ok p => rfl
+    | error err => simp [hp, Except.isOk, Except.toBool] at hb
+  | inChild post ct ctl hpre hw hchild hrec ih =>
+    rw [parseKids_append, hpre]
+    simp only [seqKids]
+    rw [parseKids.eq_2, hw]
+    simp only [Bool.false_eq_true, if_false, hchild, bind, Except.bind, parseNode, ih hb]
+  | inWrapper post ca cn ct ctl hpre hw hrec ih =>
+    rw [parseKids_append, hpre]
+    simp only [seqKids]
+    rw [parseKids.eq_2]
+    simp only [Option.isNone_none, Bool.true_and, hw, if_true, ih hb, bind, Except.bind]
 
 /-! ## 4. children of simple-typed elements are invalid content, not unknown properties -/
 
@@ -192,6 +295,11 @@ theorem unknown_attr_policy {m : XmlMeta} {q : QN} (hq : unknownAttr m q = true)
     simp only [hq.1, hq.2, h]
     rfl
 
+/- non-vacuity: `k` is unknown for `L` (which declares `i`); an xsi attribute is unknown too -/
+example : unknownAttr metaLeaf ['k'] = true ∧ unknownAttr metaLeaf ['i'] = false := by decide
+example : unknownAttr metaLeaf (['{'] ++ xsiNs ++ "}schemaLocation".toList) = true
+    ∧ targetUri (['{'] ++ xsiNs ++ "}schemaLocation".toList) = some xsiNs := by decide
+
 /-- row 1: option off → ignored -/
 theorem unknown_attr_ignored {m : XmlMeta} {q : QN} (hq : unknownAttr m q = true)
     (e : BEnv) {cfg : ParserConfig} (hc : cfg.failOnUnknownAttributes = false)
@@ -224,6 +332,25 @@ def UnknownAttrInvariant : Prop :=
       parseNode e Γ cfg (.element m (a1 ++ (q, v) :: a2) en d xt xn) t
         = parseNode e Γ cfg (.element m (a1 ++ a2) en d xt xn) t
 
+/-- the witness: `W(w: Optional[object] wildcard)`, document `<W z="v">t</W>`: the text goes
+to the wildcard as a generic element and `bind_wild_text` copies *all* raw attributes into
+it, so the "ignored" attribute `z` shows up in the object -/
+def wDoc : Tree := .node ['W'] [] [] (some ['t']) [] none
+
+theorem wild_text_takes_unknown_attr :
+    parseNode exEnv ctxW {} (.element metaW [(['z'], ['v'])] [] false none none) wDoc
+      = .ok ⟨[(some ['W'], .obj ['W'] [(['w'], .any none (some ['t']) none [(['z'], ['v'])] [])])], 0⟩
+    ∧ parseNode exEnv ctxW {} (.element metaW [] [] false none none) wDoc
+      = .ok ⟨[(some ['W'], .obj ['W'] [(['w'], .any none (some ['t']) none [] [])])], 0⟩ := ⟨rfl, rfl⟩
+
+/-- **unknown_attr_invariant_false**: the full-strength statement fails (known finding
+`C10-wild-text-takes-unknown-attrs`, reproduced on the real parser by the plug-in). -/
+theorem unknown_attr_invariant_false : ¬ UnknownAttrInvariant := by
+  intro h
+  have h := h exEnv ctxW {} metaW ['z'] (by decide) (by decide) ['v'] [] [] [] false none none wDoc
+  rw [List.nil_append, List.nil_append, wild_text_takes_unknown_attr.1, wild_text_takes_unknown_attr.2] at h
+  simp at h
+
 /-- **unknown_attr_invariant_partial**: it holds for classes without a wildcard field
 (`bind_wild_text` is the only other reader of the raw attributes). -/
 theorem unknown_attr_invariant_partial {e : BEnv} {Γ : Ctx} {cfg : ParserConfig} {m : XmlMeta} {q : QN}
@@ -234,6 +361,8 @@ theorem unknown_attr_invariant_partial {e : BEnv} {Γ : Ctx} {cfg : ParserConfig
   obtain ⟨pq, pa, pn, pt, pc, ptl⟩ := t
   have hwild : m.findAnyWildcard = none := by simp [XmlMeta.findAnyWildcard, hw]
   simp [parseNode, unknown_attr_policy hq, hr, hwild]
+
+example : unknownAttr metaRoot ['k'] = true ∧ attrReported {} ['k'] = false ∧ metaRoot.wildcards = [] := by decide
 
 /-- **unknown_attr_invariant_root_partial**: lifted to `NodeParser.parse` for an unknown
 attribute on the root element (not `xsi:type` / `xsi:nil`, which are never unknown). -/
@@ -277,6 +406,10 @@ theorem convert_failure_policy {e : BEnv} {var : VarCore} {s : Str} {nsmap : NsM
     simp only [ht, if_true, h]
   · simp only [ht, Bool.false_eq_true, if_false, Option.isNone_iff_eq_none] at h
     simp only [ht, Bool.false_eq_true, if_false, h]
+
+/- non-vacuity: "5x" is not an int, "51" is -/
+example : convFails exEnv varX.toVarCore ['5', 'x'] [] none = true := by decide
+example : convFails exEnv varX.toVarCore ['5', '1'] [] none = false := by decide
 
 /-- **convert_success_silent**: conversely a value that converts never warns and never
 fails, whatever the flags: the warning count is exactly the number of failed conversions. -/
